@@ -212,4 +212,42 @@ theorem rowAttrs_eq_memory (o : RowOpts) (k : Bytes) :
   · by_cases h1 : o.style > 0 <;> by_cases h2 : o.h4 > 0 <;> by_cases h3 : o.outline > 0 <;> cases h4 : o.hidden <;>
       simp [e0, e1, e2, e3, e4, e5, h1, h2, h3, p1, p3, List.find?_cons, kne_0_1, kne_0_2, kne_0_3, kne_0_4, kne_0_5, kne_1_0, kne_1_2, kne_1_3, kne_1_4, kne_1_5, kne_2_0, kne_2_1, kne_2_3, kne_2_4, kne_2_5, kne_3_0, kne_3_1, kne_3_2, kne_3_4, kne_3_5, kne_4_0, kne_4_1, kne_4_2, kne_4_3, kne_4_5, kne_5_0, kne_5_1, kne_5_2, kne_5_3, kne_5_4] <;> (try omega)
 
+/-! ## panes -/
+
+theorem pkne_0_1 : (lit "activePane" = lit "state") = False := by simp; decide
+theorem pkne_0_2 : (lit "activePane" = lit "topLeftCell") = False := by simp; decide
+theorem pkne_0_3 : (lit "activePane" = lit "xSplit") = False := by simp; decide
+theorem pkne_0_4 : (lit "activePane" = lit "ySplit") = False := by simp; decide
+theorem pkne_1_0 : (lit "state" = lit "activePane") = False := by simp; decide
+theorem pkne_1_2 : (lit "state" = lit "topLeftCell") = False := by simp; decide
+theorem pkne_1_3 : (lit "state" = lit "xSplit") = False := by simp; decide
+theorem pkne_1_4 : (lit "state" = lit "ySplit") = False := by simp; decide
+theorem pkne_2_0 : (lit "topLeftCell" = lit "activePane") = False := by simp; decide
+theorem pkne_2_1 : (lit "topLeftCell" = lit "state") = False := by simp; decide
+theorem pkne_2_3 : (lit "topLeftCell" = lit "xSplit") = False := by simp; decide
+theorem pkne_2_4 : (lit "topLeftCell" = lit "ySplit") = False := by simp; decide
+theorem pkne_3_0 : (lit "xSplit" = lit "activePane") = False := by simp; decide
+theorem pkne_3_1 : (lit "xSplit" = lit "state") = False := by simp; decide
+theorem pkne_3_2 : (lit "xSplit" = lit "topLeftCell") = False := by simp; decide
+theorem pkne_3_4 : (lit "xSplit" = lit "ySplit") = False := by simp; decide
+theorem pkne_4_0 : (lit "ySplit" = lit "activePane") = False := by simp; decide
+theorem pkne_4_1 : (lit "ySplit" = lit "state") = False := by simp; decide
+theorem pkne_4_2 : (lit "ySplit" = lit "topLeftCell") = False := by simp; decide
+theorem pkne_4_3 : (lit "ySplit" = lit "xSplit") = False := by simp; decide
+
+/-- the pane attributes as a finite map: exactly the non-empty / non-zero options, `state="frozen"` for a frozen pane only -/
+theorem paneAttrs_map (p : PaneOpts) :
+    attrOf (paneAttrs p) (lit "state") = (if p.freeze then some (lit "frozen") else none) ∧
+    attrOf (paneAttrs p) (lit "xSplit") = (if p.xSplit ≠ 0 then some (itoaInt p.xSplit) else none) ∧
+    attrOf (paneAttrs p) (lit "ySplit") = (if p.ySplit ≠ 0 then some (itoaInt p.ySplit) else none) ∧
+    attrOf (paneAttrs p) (lit "topLeftCell") = (if p.topLeftCell ≠ [] then some (escapeText p.topLeftCell) else none) ∧
+    attrOf (paneAttrs p) (lit "activePane") = (if p.activePane ≠ [] then some (escapeText p.activePane) else none) := by
+  refine ⟨?_, ?_, ?_, ?_, ?_⟩ <;>
+  (by_cases h1 : p.activePane = [] <;> by_cases h2 : p.freeze = true <;> by_cases h3 : p.topLeftCell = [] <;> by_cases h4 : p.xSplit = 0 <;> by_cases h5 : p.ySplit = 0 <;>
+    simp [attrOf, paneAttrs, strAttr, List.find?_cons, List.find?_append, h1, h2, h3, h4, h5, pkne_0_1, pkne_0_2, pkne_0_3, pkne_0_4, pkne_1_0, pkne_1_2, pkne_1_3, pkne_1_4, pkne_2_0, pkne_2_1, pkne_2_3, pkne_2_4, pkne_3_0, pkne_3_1, pkne_3_2, pkne_3_4, pkne_4_0, pkne_4_1, pkne_4_2, pkne_4_3])
+
+theorem paneElem_nil_iff (p : PaneOpts) : paneElem p = [] ↔ (p.freeze = false ∧ p.split = false) := by
+  unfold paneElem
+  cases p.freeze <;> cases p.split <;> simp [lit]
+
 end XlModel.Stream
